@@ -37,6 +37,17 @@ def entryOfJson (j : Json) : Except String EntryOp := do
   | "castTo" => pure .castTo
   | s => throw s!"entry op {s}"
 
+/-- exception classes of every failing field at the FIRST failing step of a chain (the real constructor applies
+    defaults before arguments, so with several invalid fields only the set is comparable) -/
+def chainErrs (O : Oracles) (cls : FieldDecl) : PyVal → List EntryOp → List String
+  | _, [] => []
+  | x, op :: rest =>
+    match applyEntryH O cls x op with
+    | .ok y => chainErrs O cls y rest
+    | .error _ => match entryKw cls x op with
+      | some kw => fieldErrs O cls kw
+      | none => []
+
 /-- the verdicts of the Lean format functions (`ipv4Ok`, `hostNameOk`) on every string the case's oracle table lists
     for their tokens: the harness compares them with its own independent implementation and with typedpy -/
 def fmtVerdicts (j : Json) : Except String Json := do
@@ -68,7 +79,10 @@ def run (j : Json) : Except String Json := do
       let r := match res with
         | .ok inst => runChainH O cls inst ops
         | .error e => .error e
-      pure [("chainRes", resToJson r)]
+      let errs := match res with
+        | .ok inst => chainErrs O cls inst ops
+        | .error _ => []
+      pure [("chainRes", resToJson r), ("chainErrs", Json.arr (errs.map Json.str).toArray)]
   let base := base ++ chainPart ++ [("wfDecl", Json.bool (wfDecl cls)), ("fmtLean", ← fmtVerdicts j)]
   let extra ← match optField j "impl" with
     | none => pure []
